@@ -110,24 +110,23 @@ def stepShot (be : Backend) (nq : Nat) (op : Op) (s : Shot) : Res Shot :=
       | none => .panic "shift"
       | some w => .ok ⟨s.qs, w⟩
   | .measureAll cbits =>
-    match be with
+    -- both backends: `InvalidNrMeasurementBits(cbits.len(), nr_bits)` before anything is written
+    if cbits.length ≠ nq then .err "InvalidNrMeasurementBits" [cbits.length, nq]
+    else match be with
     | .vector =>
-      if cbits.length ≠ nq then .err "InvalidNrMeasurementBits" [cbits.length, nq]
-      else match measureAllVecWord nq cbits (idxOfQubits s.qs) s.word with
+      match measureAllVecWord nq cbits (idxOfQubits s.qs) s.word with
         | none => .panic "shift"
         | some w => .ok ⟨s.qs, w⟩
     | .stabilizer => (measureAllStabWord nq cbits (outcomeOf s.qs) s.word).map (fun w => ⟨s.qs, w⟩)
   | .peekAll cbits =>
-    match be with
+    if cbits.length ≠ nq then .err "InvalidNrMeasurementBits" [cbits.length, nq]
+    else match be with
     | .vector =>
-      if cbits.length ≠ nq then .err "InvalidNrMeasurementBits" [cbits.length, nq]
-      else match measureAllVecWord nq cbits (idxOfQubits s.qs) s.word with
+      match measureAllVecWord nq cbits (idxOfQubits s.qs) s.word with
         | none => .panic "shift"
         | some w => .ok ⟨s.qs, w⟩
     | .stabilizer =>
-      -- `tableau.measure(qbit)` with `qbit ≥ nr_bits` is outside the model
-      if cbits.length > nq then .err "unmodelled" []
-      else match peekAllStabWord cbits (outcomeOf s.qs) s.word with
+      match peekAllStabWord cbits (outcomeOf s.qs) s.word with
         | none => .panic "shift"
         | some w => .ok ⟨s.qs, w⟩
   | .reset q => .ok ⟨s.qs.set q false, s.word⟩
